@@ -16,6 +16,7 @@ inductive Event where
   | rcpt (addr : List Byte)       -- RCPT TO answered 250
   | rcptRefused                   -- RCPT TO not answered 250 (for a bounce this may revoke the first recipient)
   | reset                         -- RSET answered 2xx
+  | dataRefused                   -- DATA answered with an error instead of 354 (this may have ended the transaction)
   | dataStarted                   -- DATA answered 354 (whatever the final outcome)
   | dataFailed                    -- the final reply to the message was not 2xx
   | tlsStarted                    -- STARTTLS succeeded
@@ -30,8 +31,10 @@ structure Tx where
   deriving Repr, DecidableEq
 
 /-- the specification automaton: the possible successor states; `[]` = the observation is not
-allowed.  The only non-determinism: a HELO answered with an error may or may not have ended the
-transaction (an observer cannot tell a refused line from a refused name). -/
+allowed.  Non-determinism only where an observer cannot tell: a HELO answered with an error may or may
+not have ended the transaction (refused line vs. refused name), likewise a DATA answered with an
+error instead of 354 (bad sequence vs. the queue could not be started), and a refused RCPT of a
+bounce may have revoked the first recipient. -/
 def txStep (t : Tx) : Event → List Tx
   | .greet => [{ greeted := true, sender := none, rcpts := [] }]
   | .greetFailed => [t, { t with sender := none, rcpts := [] }]
@@ -45,6 +48,7 @@ def txStep (t : Tx) : Event → List Tx
     | some [] => [t, { t with rcpts := [] }]
     | _ => [t]
   | .reset => [{ t with sender := none, rcpts := [] }]
+  | .dataRefused => [t, { t with sender := none, rcpts := [] }]
   | .dataStarted => if t.sender ≠ none ∧ t.rcpts ≠ [] then [t] else []
   | .dataFailed => [{ t with sender := none, rcpts := [] }]
   | .tlsStarted => [{ greeted := false, sender := none, rcpts := [] }]
